@@ -4,6 +4,7 @@ The real block is built under a fresh HWSystem, undriven input wires are poked w
 Simulator.propagateAll() runs the real evaluation, outputs are read with Wire.get() and judged by
 the independent integer reference of the catalogue entry.
 """
+import collections
 import time
 
 from . import catalog
@@ -201,7 +202,117 @@ def sweep_entry(run, entry, cfgs, rnd, tier, deadline, hostile=None):
 DECIDING = {'wide_control': 'judged_with_odd_control_value_ge_3', 'param_boundary': 'judged_with_result_reduced_mod_2**width'}
 
 
+HISTORY_SHAPES = ('A_B_A', 'A_outside_domain_A')
+
+
+def history_entry(run, entry, cfgs, rnd, tier, deadline, stats):
+    """History sweeps on ONE long-lived instance per configuration: "a combinational block answers the same whatever was applied before".
+    A,B,A returns over a small pool of in-domain vectors, and -- for blocks with a documented domain -- A, an input OUTSIDE the domain that IS
+    applied and propagated (not judged; an exception there is only counted), then A again (judged by the ordinary reference)."""
+    import py4hw
+    npool = 6 if tier == 'quick' else 14
+    nout = 4 if tier == 'quick' else 10
+    for cfg in cfgs:
+        if time.time() > deadline or run.too_many:
+            break
+        hw = py4hw.HWSystem()
+        try:
+            with muted():
+                ins, outs = entry.build(hw, cfg, hw.wire)
+                sim = hw.getSimulator()
+        except Exception:
+            continue            # reported by the plain sweep
+        if not ins:
+            continue
+        widths = [w.getWidth() for w in ins]
+        ow = [o.getWidth() for o in outs]
+        cases, _ = catalog.input_cases(widths, rnd, 10, 300, 60)
+        cases = list(cases)
+        inside = [v for v in cases if entry.domain is None or entry.domain(cfg, v)]
+        outside = [v for v in cases if entry.domain is not None and not entry.domain(cfg, v)]
+        if not inside:
+            continue
+        pool = list(dict.fromkeys([inside[0], inside[-1]] + [rnd.choice(inside) for _ in range(npool)]))[:npool]
+        opool = list(dict.fromkeys([rnd.choice(outside) for _ in range(nout)])) if outside else []
+        seqs = [('A_B_A', (A, B, A)) for A in pool for B in pool if A != B]
+        seqs += [('A_outside_domain_A', (A, O, A)) for A in pool for O in opool]
+        stats['history_configs'] += 1
+        if opool:
+            stats['history_configs_with_outside_domain_inputs:' + entry.name] += 1
+        hist = []
+        prev_outside = False
+        seen = set()
+        nbad = 0
+        for shape, seq in seqs:
+            for vals in seq:
+                hist.append(vals)
+                for w, v in zip(ins, vals):
+                    w.put(v)
+                indom = entry.domain is None or entry.domain(cfg, vals)
+                try:
+                    with muted():
+                        sim.propagateAll()
+                except Exception as e:
+                    if not indom:
+                        stats['outside_domain_step_raises_not_judged'] += 1
+                        prev_outside = True
+                        continue
+                    run.violation('%s_sim_raises' % entry.prop.lower(), dict(block=entry.name, workload='history'),
+                                  dict(block=entry.name, cfg=cfg, inputs=vals, history=hist[-8:-1]), observed=repr(e)[:200],
+                                  what='%s%r raises in propagate (history workload): %r' % (entry.name, cfg, e))
+                    nbad = 99
+                    break
+                if not indom:
+                    stats['outside_domain_steps_applied_and_propagated_not_judged'] += 1
+                    prev_outside = True
+                    continue
+                exp = entry.ref(cfg, vals)
+                got = [o.get() for o in outs]
+                run.ev()
+                stats['history_steps_judged'] += 1
+                stats['history_steps_judged:' + shape] += 1
+                if vals in seen:
+                    stats['judged_steps_returning_to_an_earlier_vector'] += 1
+                if prev_outside:
+                    stats['judged_right_after_an_outside_domain_step'] += 1
+                    stats['judged_right_after_an_outside_domain_step:' + entry.name] += 1
+                seen.add(vals)
+                if any(vals):
+                    run.nt(hash((entry.name, cfg, 'history', len(hist), tuple(vals))))
+                for k, e_ in enumerate(exp):
+                    if e_ is None:
+                        continue
+                    m = mask(e_, ow[k])
+                    if m != got[k]:
+                        nbad += 1
+                        run.violation('%s_value' % entry.prop.lower(),
+                                      dict(block=entry.name, out=k, workload='history', previous_step='outside_domain' if prev_outside else 'in_domain'),
+                                      dict(block=entry.name, cfg=cfg, inputs=vals, out=k, history=hist[-8:-1]), expected=m, observed=got[k],
+                                      what='%s%r inputs=%r out[%d] expected %d got %d -- on a long-lived instance, previous vectors %r%s' % (
+                                          entry.name, cfg, vals, k, m, got[k], hist[-4:-1], ' (the last one outside the documented domain, applied but not judged)' if prev_outside else ''))
+                        break
+                prev_outside = False
+            if nbad >= 3:
+                break
+
+
+def history_floors(run, prop, tier):
+    if run.too_many or run.violations:
+        return
+    h = run.extra.get('history', {})
+    for k in ('history_steps_judged:A_B_A', 'judged_steps_returning_to_an_earlier_vector'):
+        if not h.get(k):
+            run.inconclusive.append('history class: %s is zero' % k)
+    withdom = [e.name for e in catalog.by_prop(prop) if e.domain is not None and e.configs(tier)]
+    missing = [n for n in withdom if not h.get('judged_right_after_an_outside_domain_step:' + n)]
+    if withdom and not h.get('judged_right_after_an_outside_domain_step'):
+        run.inconclusive.append('history class: no step was judged right after an outside-domain input')
+    elif missing:
+        run.inconclusive.append('history class: blocks with a documented domain never judged right after an outside-domain input: %s' % missing)
+
+
 def post_merge(run, prop, tier):
+    history_floors(run, prop, tier)
     for c, d in catalog.CLASSES.items():
         names = [n for n in d if catalog.by_name(n).prop == prop and any(x in catalog.by_name(n).configs(tier) for x in d[n])]
         if not names:
@@ -218,6 +329,7 @@ def run_prop(run, prop, tier, seed, shard, seconds):
     entries = catalog.by_prop(prop)
     deadline = time.time() + seconds
     per_block = {}
+    hstats = collections.defaultdict(int)
     for entry in entries:
         cfgs = entry.configs(tier)
         cfgs = shard_slice(cfgs, shard)
@@ -230,12 +342,14 @@ def run_prop(run, prop, tier, seed, shard, seconds):
         # ... and with one wire connected to several input ports of the block
         for mode in ('alias_all', 'alias_pairs', 'late_drivers'):
             sweep_entry(run, entry, cfgs, rnd, tier, deadline, hostile=mode)
+        history_entry(run, entry, cfgs, rng(seed, prop, entry.name, 'history', shard), tier, deadline, hstats)
         per_block[entry.name] = dict(configs=n, evaluations=run.evaluations - e0)
         if n:
             run.sample(dict(block=entry.name, first_cfg=cfgs[0], configs=n))
         if run.too_many:
             break
     run.extra['per_block'] = per_block
+    run.extra['history'] = dict(hstats)
     run.extra['blocks'] = len(entries)
     if shard is None or shard[0] == 0:
         zero = [k for k, v in per_block.items() if v['evaluations'] == 0]
